@@ -41,6 +41,7 @@ func runC20(c *Ctx) {
 	c20R8(c)
 	c20R9(c)
 	c20R10(c)
+	c20R11(c)
 }
 
 // c20R9: the constructors never lose what they were given.
@@ -1118,4 +1119,48 @@ func c20R10(c *Ctx) {
 		}
 		c.R.Check(!bare, r, kit.FuncKey(fn)+": no bare sentinel is returned", c.Pos(at), "through a status mapper", "the handler returns a package-level sentinel error directly instead of through pkg/http/api/status: the transport reports it as codes.Unknown without ErrorInfo detail (exit code 1) while sibling handlers report the same sentinel with its registered category (InvalidArgument, exit code 2) — what a client observes depends on the handler", true)
 	}
+}
+
+// c20R11: "the process exit code is a fixed function of that classification": for a coded error ExitCode maps the
+// category the error CARRIES (ce.Code.GRPCCode()). Looking the reason up in the local registry instead coarsens every
+// `internal.unknown` error (un-migrated sentinels, statuses decoded by FromStatus keep their wire category — F23) to
+// Internal: NotFound/InvalidArgument exit 1 instead of 2 while the same error as a raw gRPC status exits 2.
+func c20R11(c *Ctx) {
+	r := c.R.Rule("R11", "K6 the exit code follows the code the error carries: in exitcode.ExitCode the category handed to fromGRPCCode on the conduiterr.Get hit edge is GRPCCode() of the found error's own Code (not of a registry lookup)", 1)
+	fn := c.SSA(r, pExitcode, "ExitCode")
+	get := c.Fn(r, pConduiterr, "Get")
+	from := c.Fn(r, pExitcode, "fromGRPCCode")
+	codeF := c.Field(r, pConduiterr, "ConduitError", "Code")
+	if fn == nil || get == nil || from == nil || codeF == nil {
+		return
+	}
+	n := 0
+	for _, gc := range kit.CallsTo(fn, Set(get)) {
+		for _, e := range kit.CondEdges(kit.ResultN(gc, 1), true) {
+			for _, fc := range kit.CallsTo(fn, Set(from)) {
+				if !(fc.Block() == e.To || e.To.Dominates(fc.Block())) {
+					continue
+				}
+				n++
+				arg := fc.Common().Args[0]
+				call, ok := arg.(*ssa.Call)
+				okCode := false
+				if ok {
+					if f := kit.CalleeOf(call.Common()); f != nil && f.Name() == "GRPCCode" && len(call.Call.Args) > 0 {
+						recv := call.Call.Args[0]
+						okCode = kit.IsFieldLoad(recv, codeF) || kit.SameField(kit.FieldOf(recv), codeF)
+						if !okCode {
+							// spilled receiver: a local holding a copy of the field
+							okCode = kit.DerivesFrom(recv, func(x ssa.Value) bool { return kit.IsFieldLoad(x, codeF) }) && !kit.DerivesFrom(recv, func(x ssa.Value) bool {
+								cl, isC := x.(*ssa.Call)
+								return isC && kit.CalleeOf(cl.Common()) != nil && kit.CalleeOf(cl.Common()).Name() == "LookupCode"
+							})
+						}
+					}
+				}
+				c.R.Check(okCode, r, "ExitCode: a coded error exits by the category it carries", c.Pos(fc.Pos()), "ce.Code.GRPCCode()", "ExitCode derives the exit code of a coded error from something other than the GRPCCode() of the error's own Code (e.g. a registry lookup by reason): errors whose reason is internal.unknown but that carry a specific category (un-migrated sentinels at the API boundary, statuses decoded by FromStatus) are coarsened to Internal — exit 1 instead of 2 or 3 — while the same error as a raw gRPC status still exits 2 or 3: the exit code depends on the path the error took", true)
+			}
+		}
+	}
+	c.R.Check(n >= 1, r, "ExitCode: fromGRPCCode on the coded-error edge", c.Pos(fn.Pos()), "found", "no fromGRPCCode call behind the conduiterr.Get hit edge", true)
 }
